@@ -57,9 +57,43 @@ var intSlices = []reflect.Type{
 	reflect.TypeOf([]uint32(nil)), reflect.TypeOf([]uint64(nil)),
 }
 
+var tTime = reflect.TypeOf(time.Time{})
+
+// setTimes gives the time.Time fields of a template value (GenValue leaves them zero) an instant,
+// mostly with a sub-second part.
+func setTimes(r *coqfmt.Rng, v reflect.Value) {
+	switch v.Kind() {
+	case reflect.Ptr:
+		if !v.IsNil() {
+			setTimes(r, v.Elem())
+		}
+	case reflect.Struct:
+		if v.Type() == tTime {
+			if v.CanSet() && !r.Chance(1, 5) {
+				tm := time.Unix(int64(r.Intn(2000000000)), 0).UTC()
+				if !r.Chance(1, 4) {
+					tm = tm.Add(time.Duration(1 + r.Intn(999999999)))
+				}
+				if r.Chance(1, 3) {
+					tm = tm.In(time.FixedZone("", (r.Intn(27)-12)*3600+coqfmt.Pick(r, []int{0, 0, 1800})))
+				}
+				v.Set(reflect.ValueOf(tm))
+			}
+			return
+		}
+		for i := 0; i < v.NumField(); i++ {
+			if v.Type().Field(i).PkgPath == "" {
+				setTimes(r, v.Field(i))
+			}
+		}
+	}
+}
+
 func leafPalette(r *coqfmt.Rng) reflect.Type {
 	tup, tuv := rty.TextUTypes()
-	switch x := r.Intn(24); {
+	switch x := r.Intn(25); {
+	case x == 24:
+		return tTime // std: flaghelper.TimeWrapper; pflag: the MarshalWrapper
 	case x < 10:
 		return coqfmt.Pick(r, scalars)
 	case x == 10:
@@ -258,6 +292,9 @@ func canonDefault(fi flagInfo) (string, bool) {
 	case strings.HasSuffix(vt, "Complex128Var") || strings.HasSuffix(vt, "Complex64Var") || vt == "p:complex128" || vt == "p:complex64":
 		c, err := strconv.ParseComplex(d, 128)
 		return fmt.Sprintf("(VList [VFloat (%d)%%Z; VFloat (%d)%%Z])", fbits(real(c)), fbits(imag(c))), err == nil
+	case vt == "*flaghelper.TimeWrapper" || vt == "p:*time.Time" || (strings.HasSuffix(vt, "MarshalWrapper") && fi.inner == "*time.Time"):
+		tm, err := time.Parse(time.RFC3339Nano, d)
+		return rty.TimeTerm(tm), err == nil
 	case strings.HasSuffix(vt, "MarshalWrapper") || strings.HasPrefix(vt, "p:*rty.") || vt == "p:*net.IP":
 		inner := fi.inner
 		if inner == "" {
@@ -437,6 +474,15 @@ func genKVs(r *coqfmt.Rng) string {
 func genText(r *coqfmt.Rng, fi flagInfo) (string, bool) {
 	vt := fi.vtype
 	switch {
+	case vt == "*flaghelper.TimeWrapper" || vt == "p:*time.Time" || (strings.HasSuffix(vt, "MarshalWrapper") && fi.inner == "*time.Time"):
+		if r.Chance(1, 6) {
+			return coqfmt.Pick(r, []string{"", "notatime", "2021-02-30T00:00:00Z", "2021-03-04T05:06:07", "2021-03-04 05:06:07Z", "2021-03-04T05:06:60Z"}), true
+		}
+		s := fmt.Sprintf("%04d-%02d-%02dT%02d:%02d:%02d", 1+r.Intn(9998), 1+r.Intn(12), 1+r.Intn(28), r.Intn(24), r.Intn(60), r.Intn(60))
+		if r.Chance(1, 2) {
+			s += fmt.Sprintf(".%d", 1+r.Intn(999999999))
+		}
+		return s + coqfmt.Pick(r, []string{"Z", "Z", "+02:00", "-07:30", "+00:00"}), true
 	case vt == "*flag.stringValue" || vt == "p:string":
 		return coqfmt.Pick(r, []string{"", "x", "hello world", "a,b", "q\"uote", "-dash", "k:v", "é"}), true
 	case vt == "*flag.boolValue" || vt == "p:bool":
@@ -592,10 +638,11 @@ func run(raw json.RawMessage) driver.Result {
 	mkTemplate := func() reflect.Value {
 		t := reflect.New(T)
 		rty.GenValue(coqfmt.NewRng(vseed), t.Elem(), rty.VOpts{NilNum: 1, NilDen: 3}, 0)
+		setTimes(coqfmt.NewRng(vseed+1), t.Elem())
 		return t
 	}
 	tmpl0, tmpl1, tmpl2 := mkTemplate(), mkTemplate(), mkTemplate()
-	tmplTerm := rty.ExactFloatPrinter.StructFieldsTerm(tmpl2.Elem()) // tmpl2: non-nil chan fields print their address, and the stacked result shares them
+	tmplTerm := rty.ValuePrinter.StructFieldsTerm(tmpl2.Elem()) // tmpl2: non-nil chan fields print their address, and the stacked result shares them
 	PT := ptrify.Pointerify(T, tmpl0.Elem())
 
 	_, infos, err0, panic0 := build(in.Pkg, ne, te, tmpl0.Interface(), nil)
@@ -626,14 +673,21 @@ func run(raw json.RawMessage) driver.Result {
 			continue // no argv token addresses such a flag (pflag registers it, its tokeniser rejects the argument)
 		}
 		n := 1
-		if r.Chance(1, 3) {
+		isMap := strings.HasSuffix(fi.vtype, "MapStringStringFlag") || fi.vtype == "p:*map[string]string"
+		if r.Chance(1, 3) || (isMap && r.Chance(1, 2)) {
 			n = 2 + r.Intn(2)
 		}
+		prev := ""
 		for i := 0; i < n; i++ {
 			txt, ok := genText(r, fi)
 			if !ok {
 				break
 			}
+			if k, _, found := strings.Cut(prev, ":"); isMap && i > 0 && found && k != "" && !strings.ContainsAny(k, ",\"`") && r.Chance(1, 2) {
+				// the same key again with another value: the later occurrence wins
+				txt = k + ":" + coqfmt.Pick(r, simpleWords) + fmt.Sprint(i)
+			}
+			prev = txt
 			occs = append(occs, occ{fi.name, txt})
 			if i > 0 {
 				repeated = true
@@ -666,11 +720,11 @@ func run(raw json.RawMessage) driver.Result {
 	okTerm := ""
 	stackTerm := "(Err 0)"
 	if err1 == nil && !panic1 {
-		okTerm = rty.ExactFloatPrinter.StructFieldsTerm(val)
+		okTerm = rty.ValuePrinter.StructFieldsTerm(val)
 		res, serr, spanic := composeSafe(tmpl2, []reflect.Value{val})
 		st := ""
 		if serr == nil && !spanic {
-			st = rty.ExactFloatPrinter.StructFieldsTerm(res)
+			st = rty.ValuePrinter.StructFieldsTerm(res)
 		}
 		stackTerm = driver.Outcome(st, serr, spanic)
 	}
@@ -704,7 +758,7 @@ func run(raw json.RawMessage) driver.Result {
 		direct = append(direct, "an advertised default could not be rendered canonically (harness)")
 	}
 	return driver.Result{
-		Coq: fmt.Sprintf("FlagCase %d %d %d %s %s %s %s %s %s %s", in.Pkg, ne, te, rty.FieldsTerm(T), tmplTerm, nd.Term(),
+		Coq: fmt.Sprintf("FlagCase %d %d %d %s %s %s %s %s %s %s", in.Pkg, ne, te, rty.ValuePrinter.FieldsTerm(T), tmplTerm, nd.Term(),
 			driver.Outcome(advTerm, err0, panic0), coqfmt.List(occParts), driver.Outcome(okTerm, err1, panic1), stackTerm),
 		Kind:       "generated",
 		Nontrivial: len(infos) >= 2 && len(occs) >= 1 && len(occs) < len(infos)+2 && (repeated || len(occs) >= 2),
